@@ -533,6 +533,9 @@ def _loop_append(s):
     return at(ast.Expr(value=call), s)
 
 
+_MAY_ALIAS = None      # set by Normalizer.normalize for the function being canonicalised
+
+
 def _canon_stmt(s, fresh=None) -> list:
     if isinstance(s, (ast.FunctionDef, ast.AsyncFunctionDef, ast.ClassDef)):
         return [s]          # nested definitions are normalised as functions of their own
@@ -639,7 +642,8 @@ def _canon_stmt(s, fresh=None) -> list:
         s.iter = s.iter.args[0]
     # x.sort(key=k) -> x = sorted(x, key=k)          (x a plain local name)
     if isinstance(s, ast.Expr) and isinstance(s.value, ast.Call) and isinstance(s.value.func, ast.Attribute) \
-            and s.value.func.attr == 'sort' and isinstance(s.value.func.value, ast.Name) and not s.value.args:
+            and s.value.func.attr == 'sort' and isinstance(s.value.func.value, ast.Name) and not s.value.args \
+            and _MAY_ALIAS is not None and s.value.func.value.id not in _MAY_ALIAS:
         x = s.value.func.value.id
         return [at(ast.Assign(targets=[ast.Name(id=x, ctx=ast.Store())],
                               value=ast.Call(func=ast.Name(id='sorted', ctx=ast.Load()), args=[ast.Name(id=x, ctx=ast.Load())],
@@ -1405,7 +1409,26 @@ class Normalizer:
             for n in walk_local(fi.node):
                 if isinstance(n, (ast.FunctionDef, ast.AsyncFunctionDef)) and n is not fi.node:
                     self.normalize(FuncInfo(fi.module, n, fi.cls, outer=fi))
+            # names that may be ALIASES of an object the function did not create (bound from an attribute, a parameter, another
+            # name, a subscript): an in-place `x.sort()` on them is an effect and must stay one
+            global _MAY_ALIAS
+            _MAY_ALIAS = set(fi.all_params)
+            for n in walk_local(fi.node):
+                if isinstance(n, (ast.Assign, ast.AnnAssign)) and getattr(n, 'value', None) is not None:
+                    fresh_val = isinstance(n.value, (ast.List, ast.ListComp, ast.Dict, ast.Set, ast.Tuple, ast.DictComp, ast.SetComp, ast.BinOp)) or (
+                        isinstance(n.value, ast.Call) and isinstance(n.value.func, ast.Name) and n.value.func.id in ('list', 'sorted', 'set', 'dict', 'tuple'))
+                    if not fresh_val:
+                        for t in (n.targets if isinstance(n, ast.Assign) else [n.target]):
+                            for x in ast.walk(t):
+                                if isinstance(x, ast.Name):
+                                    _MAY_ALIAS.add(x.id)
+                elif isinstance(n, (ast.For, ast.With, ast.comprehension)):
+                    tg = n.target if not isinstance(n, ast.With) else None
+                    for x in (ast.walk(tg) if tg is not None else []):
+                        if isinstance(x, ast.Name):
+                            _MAY_ALIAS.add(x.id)
             body = canon_block(body)
+            _MAY_ALIAS = None
             body = self.inline_block(body, fi, 0)
             body = self.unroll_block(body, fi)
             body = self.bool_tables(body, fi)
